@@ -202,7 +202,20 @@ fn prepare(c: &BrCase, c10: bool) -> Option<Prep> {
 // trailing bytes, so it dispatches identically; validators that compare whole data would not)
 pub const C10_SYMS: &[&str] = &["cb", "sA", "sV", "eA", "eV", "wA", "rA", "bA", "dA", "irW", "kr", "js", "sd", "un", "fsA", "feA", "p:sA", "p:eA", "p:wA", "p:rA", "wBig", "sA+", "sV+", "eA+"];
 // "feV&A" = end for account V with account U appended as a trailing (ignored) remaining account
-pub const C11_SYMS: &[&str] = &["fs0", "fs1", "fs2", "fs3", "fs4", "fs9", "feA", "feV", "bBig", "bSm", "wBig", "dA", "rAll", "lqA", "bkA", "sA", "eA", "tA", "cA", "p:fs2", "p:feA", "p:bBig", "cb", "feV&A", "feA+"];
+pub const C11_SYMS: &[&str] = &["fs0", "fs1", "fs2", "fs3", "fs4", "fs9", "feA", "feV", "bBig", "bSm", "wBig", "dA", "rAll", "lqA", "bkA", "sA", "eA", "tA", "cA", "p:fs2", "p:feA", "p:bBig", "cb", "feV&A", "feA+", "fsH0", "fsH1", "fsG1"];
+
+/// end index named by a flash-loan start symbol: "fs<k>" = k, "fsH<k>" = 65536 + k, "fsG<k>" = 2^32 + k
+/// (indices that alias position k if the program narrows the 64-bit argument to 16 / 32 bits)
+fn fs_index(sym: &str) -> Option<u64> {
+    let t = sym.strip_prefix("fs")?;
+    if let Some(k) = t.strip_prefix('H') {
+        return k.parse::<u64>().ok().map(|k| 65_536 + k);
+    }
+    if let Some(k) = t.strip_prefix('G') {
+        return k.parse::<u64>().ok().map(|k| (1u64 << 32) + k);
+    }
+    t.parse::<u64>().ok()
+}
 
 fn foreign_ix(program_id: Pubkey, data: Vec<u8>) -> Instruction {
     Instruction { program_id, accounts: vec![], data }
@@ -251,7 +264,7 @@ fn build_ix(p: &Prep, sym: &str) -> Instruction {
         "fsA" => w.ix_start_flashloan(ua, p.u.auth, 3),
         "feA" => w.ix_end_flashloan(ua, p.u.auth, w.risk_metas(&ua, Some(w.banks[lb].key), None)),
         "feV" => w.ix_end_flashloan(va, p.v.auth, w.risk_metas(&va, None, None)),
-        "fs0" | "fs1" | "fs2" | "fs3" | "fs4" | "fs9" => w.ix_start_flashloan(ua, p.u.auth, sym[2..].parse::<u64>().unwrap()),
+        "fs0" | "fs1" | "fs2" | "fs3" | "fs4" | "fs9" | "fsH0" | "fsH1" | "fsG1" => w.ix_start_flashloan(ua, p.u.auth, fs_index(sym).unwrap()),
         "bBig" => w.ix_borrow_with(ua, p.u.auth, lb, p.u.tokens[lb], p.big_borrow, w.risk_metas(&ua, Some(w.banks[lb].key), None)),
         "bSm" => w.ix_borrow_with(ua, p.u.auth, lb, p.u.tokens[lb], p.small_borrow, w.risk_metas(&ua, Some(w.banks[lb].key), None)),
         "rAll" => w.ix_repay(ua, p.u.auth, lb, p.u.tokens[lb], 0, Some(true)),
@@ -474,7 +487,7 @@ fn check_c11(p: &Prep, shape: &[&str], stats: &mut Stats) -> Result<(), (String,
         let set_now = fl & ACCOUNT_IN_FLASHLOAN != 0 && flag_before & ACCOUNT_IN_FLASHLOAN == 0;
         if set_now {
             // a start succeeded at position i
-            let Some(end_idx) = sym.strip_prefix("fs").and_then(|x| x.parse::<usize>().ok()) else {
+            let Some(end_idx) = fs_index(sym).map(|x| x.min(usize::MAX as u64 / 2) as usize) else {
                 return Err(("flash:flag-set-by-non-start".into(), format!("shape {:?}: instruction #{i} ({sym}) set the flash-loan flag", shape)));
             };
             let ok_shape = end_idx > i && end_idx < shape.len() && matches!(shape[end_idx], "feA" | "feA+");
@@ -710,10 +723,10 @@ pub fn run_case(c: &BrCase, c10: bool, stats: &mut Stats, shard: Option<(usize, 
 }
 
 const RULE_C10: &str = "per generated world (2 banks; generated decimals, token programs, weights, oracles; a borrower steered to a generated maintenance health, mostly liquidatable, sometimes healthy; liquidation records created): EXHAUSTIVE enumeration of all transaction shapes up to the stated length over the 24-symbol alphabet (incl. trailing-byte variants of start/end) {compute-budget, start(U), start(V), end(U), end(V), withdraw(U) by third party, big withdraw, repay(U), borrow(U), deposit(U), init-record, kamino-refresh (whitelisted), allowed-program swap, short-data ix, unknown-program ix, flash start/end, and start/end/withdraw/repay via CPI from an allow-listed proxy program} plus random longer shapes; every shape executed as one atomic transaction through the real entry point. Commit-time oracle: no receivership flag / receiver survives; if a third party controlled the account then the shape is in the language written from the statement (start first after compute/whitelisted, end last, only withdraw/repay/record-init between, allowed programs, no CPI), the account was not healthy, health not worse, not ended healthy and premium <= max(fee,5%) unless equity < $5 (definite breaches on enclosures, under both price readings). Non-trivial = committed transactions in which a third party controlled the account; distinct by (shape, world hash).";
-const RULE_C11: &str = "per generated world (account normal / frozen / disabled-by-transfer): EXHAUSTIVE enumeration of all transaction shapes up to the stated length over the 25-symbol alphabet (incl. an end for another account that merely lists U, and a trailing-byte end) {flash start naming end index 0,1,2,3,4,9; end(U); end(V); big borrow (unhealthy); small borrow; big withdraw; deposit; repay_all; classic liquidate(U); bankruptcy(U); start_liquidation(U); end_liquidation(U); transfer(U); close(U); start/end/borrow via CPI; compute-budget} plus random longer shapes, each executed atomically. Oracle: per executed instruction — a start that set the flag named a later end(U) of this program, was top-level, on an unflagged account, not nested; liquidation/bankruptcy/start_liquidation never succeed on a flagged account; at commit — no flash-loan flag survives, and if an action inside left the account initially unhealthy (reference model) then an end(U) follows and the account is not unhealthy at commit. Non-trivial = committed transactions containing a borrow/withdraw that skipped the health check.";
+const RULE_C11: &str = "per generated world (account normal / frozen / disabled-by-transfer): EXHAUSTIVE enumeration of all transaction shapes up to the stated length over the 28-symbol alphabet (incl. an end for another account that merely lists U, and a trailing-byte end) {flash start naming end index 0,1,2,3,4,9 and 65536+0, 65536+1, 2^32+1 (aliases of 0 / 1 under 16- / 32-bit narrowing); end(U); end(V); big borrow (unhealthy); small borrow; big withdraw; deposit; repay_all; classic liquidate(U); bankruptcy(U); start_liquidation(U); end_liquidation(U); transfer(U); close(U); start/end/borrow via CPI; compute-budget} plus random longer shapes, each executed atomically. Oracle: per executed instruction — a start that set the flag named a later end(U) of this program, was top-level, on an unflagged account, not nested; liquidation/bankruptcy/start_liquidation never succeed on a flagged account; at commit — no flash-loan flag survives, and if an action inside left the account initially unhealthy (reference model) then an end(U) follows and the account is not unhealthy at commit. Non-trivial = committed transactions containing a borrow/withdraw that skipped the health check.";
 
 pub fn run(ctx: &Ctx, c10: bool) -> Report {
-    let worlds: u32 = ctx.tier.pick(4, 10);
+    let worlds: u32 = if c10 { ctx.tier.pick(4, 10) } else { ctx.tier.pick(6, 12) };
     let max_len: u8 = if c10 { ctx.tier.pick(4, 5) } else { ctx.tier.pick(4, 5) };
     let extra: u32 = ctx.tier.pick(200_000, 1_000_000);
     let rule = if c10 { RULE_C10 } else { RULE_C11 };
